@@ -193,14 +193,22 @@ def check(ctx: Ctx) -> None:
                 else:
                     ob.violation(h, h.node, f"{MESSAGE_TABLE[code][1]} does not hand exactly (channel id, payload) to ChannelFactory.{what.split('(')[0]}")
         h = repo.func(reg[3][1].qualname) if 3 in reg else repo.cls("Message").methods["_channel_exec"]
-        nw = [c for c in repo.calls_in(h) if callee_attr(c) == "new"]
-        se = [c for c in repo.calls_in(h) if callee_attr(c) == "_local_schedulexec"]
-        ok = len(nw) == 1 and unparse(nw[0].args[0]) == f"{h.params()[0]}.channelid" and len(se) == 1
-        if ok:
-            cv = unparse(repo.parent(nw[0]).targets[0]) if isinstance(repo.parent(nw[0]), ast.Assign) else None
-            kw = {k.arg: unparse(k.value) for k in se[0].keywords}
-            pos = [unparse(a) for a in se[0].args]
-            ok = (kw == {"channel": cv, "sourcetask": f"{h.params()[0]}.data"}) or pos == [cv, f"{h.params()[0]}.data"]
+        from ..terms import evaluator as _evh
+        mp = h.params()[0]
+        evh = _evh(repo, h)
+        se = []
+        ok = True
+        for (_p, st_) in evh.run(limit=4000):
+            sch = [e for e in st_.events if e.kind == "call" and e.attr == "_local_schedulexec"]
+            if len(sch) != 1:
+                ok = False
+                continue
+            se.append(sch[0].node)
+            a = list(sch[0].args) + [sch[0].kwargs.get(k) for k in ("channel", "sourcetask")[len(sch[0].args):]]
+            mk = [e for e in st_.events if e.kind == "call" and a and e.result == a[0]]
+            if not (len(a) == 2 and mk and mk[0].attr == "new" and mk[0].args == (("sym", f"{mp}.channelid"),) and a[1] == ("sym", f"{mp}.data")):
+                ok = False
+        ok = ok and bool(se)
         ob.site(h, se[0] if se else h.node, "_channel_exec -> new(id) + _local_schedulexec(channel, data)", ok=ok)
         if not ok:
             ob.violation(h, h.node, "_channel_exec does not schedule the payload on the channel with the received id")
